@@ -121,6 +121,7 @@ def run_plan(plan, oracle_factory, collect=None):
     try:
         if use_tape:
             tape.install()
+            tape.begin_op(None, None)       # no spec/counters may leak in from an earlier run in this process
         seams.reseed(plan.get("rs0", 1))
         world = World(cfg)
         oracles = oracle_factory(world, plan)
